@@ -2,8 +2,8 @@
    for one URL with a project root present. Definitions only.
    The cache file of the URL is [option centry] (absent, or body + mtime in Unix seconds).
    SHA-256 is the section variable H (content -> lowercase hex text); nothing is assumed of it.
-   The cache write is File::create (create + truncate) followed by write_all: a kill inside
-   write_to_cache leaves the states listed in [crash_write]. *)
+   The cache write goes through state::atomic_write_with_lock (temp file + rename): a kill
+   inside write_to_cache leaves the states listed in [crash_write]. *)
 From Coq Require Import NArith List Bool.
 From SG Require Import Config.Toml.
 Import ListNotations.
@@ -93,19 +93,29 @@ Section Fetch.
         end
     end.
 
-  (* ---- crash inside write_to_cache *)
-  Inductive crash_point :=
-  | BeforeCreate            (* rc:before_create *)
-  | AfterCreate             (* rc:after_create: created + truncated, nothing written *)
-  | MidWrite (n : nat)      (* killed inside write_all after n characters *)
-  | AfterWrite.             (* rc:after_write *)
+  (* ---- crash inside write_to_cache.
+     Repaired code (fixes/D20-atomic-remote-cache-write.patch, on top of D14): the body goes to a
+     temporary file that is renamed over the cache file; a kill leaves the old entry (any point
+     before the rename) or the complete new one (after it). *)
+  Inductive crash_point := BeforeRename | AfterRename.
 
   Definition crash_write (cp : crash_point) (now : N) (c : cache) (b : str) : cache :=
     match cp with
-    | BeforeCreate => c
-    | AfterCreate => Some {| c_body := []; c_mtime := now |}
-    | MidWrite n => Some {| c_body := firstn n b; c_mtime := now |}
-    | AfterWrite => write_cache now b
+    | BeforeRename => c
+    | AfterRename => write_cache now b
+    end.
+
+  (* The write as it was before the repair: File::create (create + truncate), then write_all.
+     Kept to state why the repair was needed (C18_plain_write_refuted). *)
+  Inductive plain_point :=
+  | PBeforeCreate | PAfterCreate | PMidWrite (n : nat) | PAfterWrite.
+
+  Definition crash_write_plain (cp : plain_point) (now : N) (c : cache) (b : str) : cache :=
+    match cp with
+    | PBeforeCreate => c
+    | PAfterCreate => Some {| c_body := []; c_mtime := now |}
+    | PMidWrite n => Some {| c_body := firstn n b; c_mtime := now |}
+    | PAfterWrite => write_cache now b
     end.
 
   (* a fetch whose process is killed at cp if (and only if) it reaches the cache write;
@@ -114,6 +124,13 @@ Section Fetch.
              (expected : option str) (srv : server) : option cache :=
     match fetch p now c expected srv with
     | (OContent b, _, 1) => Some (crash_write cp now c b)
+    | _ => None
+    end.
+
+  Definition fetch_crash_plain (cp : plain_point) (p : policy) (now : N) (c : cache)
+             (expected : option str) (srv : server) : option cache :=
+    match fetch p now c expected srv with
+    | (OContent b, _, 1) => Some (crash_write_plain cp now c b)
     | _ => None
     end.
 End Fetch.
